@@ -256,6 +256,56 @@ def gen_small_cases(rng, n):
     return out
 
 
+WITNESS = dict(sum=1, closed=0, pattern=[(0, 0), (-75110867, 4266284)], path=[(56941013, -102020953), (26228893, -100276510)],
+               regime='witness', k=1, kinds='witness', cls='witness')
+
+
+def egcd(a, b):
+    x0, y0, x1, y1 = 1, 0, 0, 1
+    while b:
+        q = a // b
+        a, b = b, a - q * b
+        x0, x1 = x1, x0 - q * x1
+        y0, y1 = y1, y0 - q * y1
+    return a, x0, y0
+
+
+def gen_nearpar_cases(rng, n):
+    """a pattern edge almost parallel to a path edge (cross product +-1..3 at coordinates up to 2^40): the quad is a
+    sliver whose binary64 Area has the wrong sign or is zero (C19_quads_positive_unbounded_refuted) -- the sliver lies
+    within the tolerance band, so the property must still hold"""
+    out = []
+    tries = 0
+    while len(out) < n and tries < 100 * n + 100:
+        tries += 1
+        M = rng.choice([2 ** 27, 2 ** 30, 2 ** 36, 2 ** 39])
+        u = (rng.range(-M, M) // 8, rng.range(-M, M) // 8)
+        if u[0] == 0 or u[1] == 0:
+            continue
+        g, x, y = egcd(abs(u[0]), abs(u[1]))
+        if g != 1:
+            continue
+        sx, sy = (1 if u[0] > 0 else -1), (1 if u[1] > 0 else -1)
+        t = rng.choice([1, -1, 2, -2, 3, -3])
+        w = (-sy * y * t, sx * x * t)
+        assert u[0] * w[1] - u[1] * w[0] == t
+        k = rng.range(0, 1)
+        v = (w[0] + k * u[0], w[1] + k * u[1])
+        o = (rng.range(-M // 2, M // 2), rng.range(-M // 2, M // 2))
+        third = (rng.range(-M, M) // 16, rng.range(-M, M) // 16)
+        pattern = [(0, 0), v] + ([third] if rng.chance(1, 2) else [])
+        pth = [o, (o[0] + u[0], o[1] + u[1])]
+        if rng.chance(1, 2):
+            pth.append((pth[-1][0] + rng.range(-M, M) // 16, pth[-1][1] + rng.range(-M, M) // 16))
+        if max(abs(c) for p in pattern + pth for c in p) > LIM:
+            continue
+        if len(set(pattern)) != len(pattern) or len(set(pth)) != len(pth):
+            continue
+        out.append(dict(sum=rng.below(2), closed=rng.below(2), pattern=pattern, path=pth, regime='nearpar', k=1,
+                        kinds='nearpar%d/%d' % (len(pattern), len(pth)), cls='nearpar'))
+    return out
+
+
 def gen_tie_cases(rng, n):
     """anything goes for the exact quad correspondence: duplicates, collinear runs, parallel edges, 0..2 points"""
     out = []
@@ -389,17 +439,20 @@ def sample_points(rng, quads, result, k, cap, extra=()):
 
 
 def check_cmd(c, result, pts):
-    return 'CHECK %d %d %s %s %d %d %s %s' % (c['sum'], c['closed'], pp(c['pattern']), pp(c['path']), TOL_TN, TOL_TD,
-                                              vf.fmt_paths(polys.double_paths(result)), pp(pts))
+    """Path64 result: everything doubled (k = 2), tolerance 2 units = 4 doubled units"""
+    return 'CHECK %d %d %s %s 2 %d %d %s %s' % (c['sum'], c['closed'], pp(c['pattern']), pp(c['path']), TOL_TN, TOL_TD,
+                                                vf.fmt_paths(polys.double_paths(result)), pp(pts))
 
 
 def parse_check(line):
     t = line.split()
     if not t or t[0] != 'OK':
         return None
-    nfar, nins, nfail = int(t[1]), int(t[2]), int(t[3])
+    nfar, nins, nfail, nx = int(t[1]), int(t[2]), int(t[3]), int(t[4])
+    if nx:
+        raise vf.Infra('oracle inconsistent: cross-product membership and winding numbers of the parallelograms disagree at %d far points: %s' % (nx, line[:200]))
     fl = []
-    pos = 4
+    pos = 5
     while len(fl) < 5 and pos + 4 <= len(t):
         fl.append(dict(point=(int(t[pos]) / 2.0, int(t[pos + 1]) / 2.0), point2=(int(t[pos]), int(t[pos + 1])),
                        w=int(t[pos + 2]), inside=t[pos + 3] == '1'))
@@ -652,16 +705,77 @@ def explore_d(ctx, tools, cases, cap, n_region):
                 why = 'PathD result is not the de-scaled Path64 result on the scaled inputs: %s vs %s' % (p['rd'], dm)
         if why:
             mism.append((c, why))
-        if len(reg_cases) < n_region and max([abs(v) for pt in p['pat64'] + p['p64'] for v in pt] + [0]) <= LIM:
-            reg_cases.append(dict(sum=c['sum'], closed=c['closed'], pattern=p['pat64'], path=p['p64'], regime=c['regime'], k=c['k'],
-                                  kinds=c['kinds'], cls='pathd', dcase=c))
-    # the region clause on the scaled 64-bit result (== the PathD result by the comparison above)
+        mp, ma = parse_ok_paths(s1), parse_ok_paths(s2)
+        if len(reg_cases) < n_region and mp and ma and max([abs(v) for pt in mp[0] + ma[0] for v in pt] + [0]) <= LIM:
+            # specification inputs = the MODEL's scaled pattern/path (not the harness' values)
+            reg_cases.append(dict(sum=c['sum'], closed=c['closed'], pattern=mp[0], path=ma[0], regime=c['regime'], k=c['k'],
+                                  kinds=c['kinds'], cls='pathd', dcase=c, rd=p['rd'], dec=c['dec'], points2=[tuple(q) for q in c.get('points2', ())]))
+    # the region clause on the PathD result itself, exactly: its binary64 coordinates times 10^dec are dyadic
+    # rationals; with F = their common (power of two) denominator everything is scaled by k = 2F
     if reg_cases:
         gp = tools_genpos(tools, reg_cases)
         reg_cases = [c for c, g in zip(reg_cases, gp) if g]
-        m2, _ = explore_region(ctx, tools, reg_cases, cap)
-        mism += [(c.get('dcase', c), 'quads differ from the model') for c, d in m2]
+        d_region(ctx, tools, reg_cases, cap)
     return mism
+
+
+def d_region(ctx, tools, cases, cap):
+    from fractions import Fraction
+    rng = ctx.rng.fork(len(cases) + 17)
+    qm = tools.model([quads_cmd(c) for c in cases])
+    lines, meta = [], []
+    for c, qo in zip(cases, qm):
+        quads = parse_ok_paths(qo)
+        den = 10 ** c['dec']
+        ex = [[(Fraction(float.fromhex(x)) * den, Fraction(float.fromhex(y)) * den) for x, y in p] for p in c['rd']]
+        F = 1
+        for p in ex:
+            for x, y in p:
+                F = max(F, x.denominator, y.denominator)       # denominators are powers of two
+        if F.bit_length() > 70:
+            ctx.count('pathd_region_skipped_denominator')
+            continue
+        k = 2 * F
+        outk = [[(int(x * k), int(y * k)) for x, y in p] for p in ex]
+        approx = [[(int(round(x)), int(round(y))) for x, y in p] for p in ex]
+        pts2 = sample_points(rng, quads, approx, c.get('k', 1), cap, extra=c.get('points2', ()))
+        ptsk = [(x * F, y * F) for x, y in pts2]
+        lines.append('CHECK %d %d %s %s %d %d 1 %s %s' % (c['sum'], c['closed'], pp(c['pattern']), pp(c['path']), k, 2 * k,
+                                                          vf.fmt_paths(outk), pp(ptsk)))
+        meta.append((c, F, len(ptsk)))
+    out = tools.model(lines, chunk=1)
+    seen = set()
+    nontriv = set()
+    for (c, F, npts), o in zip(meta, out):
+        pc = parse_check(o)
+        if pc is None:
+            raise vf.Infra('oracle CHECK (PathD) failed: %s' % o[:300])
+        nfar, nins, nfail, fails = pc
+        ctx.count('evaluations')
+        ctx.count('pathd_region_cases')
+        ctx.count('sample_points_total', npts)
+        ctx.count('sample_points_far', nfar)
+        ctx.count('sample_points_far_inside', nins)
+        ctx.hist('regime', c['regime'])
+        ctx.hist('kinds', c['kinds'])
+        ctx.hist('pathd_denominator_bits', F.bit_length() - 1)
+        if c['rd'] and nfar > 0:
+            nontriv.add(mind_cmd(c['dcase']))
+        for f in fails:
+            key = fail_key(f)
+            if key in seen:
+                continue
+            seen.add(key)
+            dc = c['dcase']
+            den = 10 ** c['dec']
+            # the failing point in the caller's (unscaled) coordinates
+            qx, qy = Fraction(f['point2'][0], 2 * F) / den, Fraction(f['point2'][1], 2 * F) / den
+            ctx.violation(key, 'Minkowski%s(PathD pattern, PathD path, closed=%d, decimals=%d) on `%s`: at (%s, %s) [= (%s, %s) in units of 10^-%d], farther than 2 units '
+                          'of 10^-%d from every parallelogram edge, the net winding of the result is %d but the point is %s the union of the parallelograms; result %s'
+                          % ('Sum' if c['sum'] else 'Diff', c['closed'], c['dec'], mind_cmd(dc), float(qx), float(qy), float(qx * den), float(qy * den), c['dec'],
+                             c['dec'], f['w'], 'inside' if f['inside'] else 'outside', c['rd']),
+                          replay=dict(kind='d', case=dc, key=key, points2=[[f['point2'][0] // F, f['point2'][1] // F]]))
+    ctx.cov['distinct_nontrivial'] = ctx.cov.get('distinct_nontrivial', 0) + len(nontriv)
 
 
 def tools_genpos(tools, cases):
@@ -685,6 +799,9 @@ def run(ctx):
         'NOT proved: that detail::Union (Clipper64, NonZero) of the quads is their union within 2 units -- validated by sampling: grid over the bounding box + centres of parallelograms + neighbourhoods of parallelogram/result vertices; the points quantifier is covered by sampling, not by a theorem',
         'general position of pattern and path as decided by base/GenPos.v (each taken as a closed ring) and no pattern edge parallel to a path edge; 1- and 2-point patterns/paths are checked as an additional class',
         'PathD overloads: scaling is C16\'s model (model/Scale.v); pow(10,dec) is compared with the correctly rounded decimal power',
+        'Print Assumptions: the structural theorems depend only on the primitive float/int63 operations of the standard library (the model uses PrimFloat); '
+        'C19_orientation_exact / C19_quads_positive additionally on the FloatAxioms specs (mul_spec, add_spec, leb_spec, Prim2SF_*), and through Flocq/Reals on '
+        'Classical_Prop.classic, ClassicalDedekindReals.sig_forall_dec / sig_not_dec and functional_extensionality_dep',
     ]
     ctx.cov['rule'] = ('seeded random patterns (convex, clockwise convex, star-shaped non-convex, self-intersecting, triangles, patterns not containing the origin) x paths '
                        '(open walks/zigzags, closed star/self-intersecting/clockwise loops), accepted by the extracted predicate general_position and with no parallel '
@@ -716,16 +833,28 @@ def run(ctx):
         area_mism = [(l, x, y) for l, x, y in zip(L, a, m)
                      if not (x.startswith('OK ') and y.startswith('OK ') and bits(x.split()[1]) == bits(y.split()[1]))]
     # 2. exact quad correspondence on unrestricted inputs
-    tie_mism = explore_tie(ctx, tools, gen_tie_cases(ctx.rng.fork(2), n_tie))
+    tie_mism = explore_tie(ctx, tools, [dict(WITNESS)] + gen_tie_cases(ctx.rng.fork(2), n_tie) + gen_nearpar_cases(ctx.rng.fork(7), n_tie // 8))
     # 3. the property on general-position inputs (+ small degenerate class)
     cases = gen_genpos_cases(ctx, ctx.rng.fork(3), n_reg)
     gp = tools_genpos(tools, cases)
     ctx.cov['genpos_rejected_by_coq_predicate'] = sum(1 for g in gp if not g)
     cases = [c for c, g in zip(cases, gp) if g] + gen_small_cases(ctx.rng.fork(4), n_small)
+    cases += [dict(WITNESS)] + gen_nearpar_cases(ctx.rng.fork(8), n_small)
+    ctx.log('area %d, tie %d done; %d region cases' % (n_area, n_tie, len(cases)))
     reg_mism, ev = explore_region(ctx, tools, cases, cap)
     for c, d in list(zip(cases, ev))[:3]:
         ctx.sample(dict(sum=c['sum'], closed=c['closed'], pattern=c['pattern'], path=c['path'], regime=c['regime'],
                         quads=len(d['model_quads']), result=d['result'], sample_points=d['npts'], far=d['nfar']))
+    # the refutation witness of C19_quads_positive_unbounded_refuted, replayed on the real code: the implementation
+    # emits the same negatively oriented sliver as the model (it is part of the exact quad comparison above)
+    wq = ev[[i for i, c in enumerate(cases) if c['cls'] == 'witness'][0]]
+    def area2(q):
+        return sum((q[i - 1][1] + q[i][1]) * (q[i - 1][0] - q[i][0]) for i in range(len(q)))
+    ctx.cov['refutation_witness_replayed'] = dict(
+        pattern=WITNESS['pattern'], path=WITNESS['path'], impl_quads=wq.get('impl_quads'), impl_equals_model=wq.get('impl_quads') == wq['model_quads'],
+        exact_area2_of_impl_quads=[area2(q) for q in (wq.get('impl_quads') or [])],
+        negative_quad_emitted_by_impl=any(area2(q) < 0 for q in (wq.get('impl_quads') or [])))
+    ctx.log('region done')
     # 4. empty inputs, 5. PathD overloads
     empty_cases(ctx, tools)
     d_mism = explore_d(ctx, tools, gen_d_cases(ctx.rng.fork(6), n_d), cap, n_dreg)
@@ -805,7 +934,7 @@ def replay(ctx, path):
         if not (a.startswith('OK ') and a.split('|')[-1].split() == [rp.get('expect_last', '0')]):
             ctx.violation(rp.get('key', 'empty.nonempty-result'), 'replayed: `%s` -> `%s`' % (rp['line'], a[:300]), replay=rp)
     elif kind == 'd':
-        m = explore_d(ctx, tools, [rp['case']], 900, 1)
+        m = explore_d(ctx, tools, [dict(rp['case'], points2=rp.get('points2', []))], 900, 1)
         for c, why in m:
             ctx.violation('corr.pathd', 'replayed: %s' % why[:600], replay=rp, nofail=not ctx.violations)
     else:
